@@ -166,7 +166,8 @@ class NameLookupRewriteVisitor(NodeTransformerBase):
         return super().generic_visit(node)
 
     def visit_Lambda(self, node: ast.Lambda) -> ast.AST:
-        self.scopes.append(set())
+        # The names bound by an enclosing lambda stay visible
+        self.scopes.append(set(self.scopes[-1]))
         try:
             return super().generic_visit(node)
         finally:
